@@ -105,6 +105,8 @@ pub fn run_extra(kind: &str, l: &[Sx]) -> String {
     match kind {
         "tot" => tot_case(l),
         "arity" => arity_case(),
+        "serscript" => serscript_case(l),
+        "respell" => respell_case(l),
         "rtext" => rtext_case(l),
         "stext" => stext_case(l),
         "lay" => lay_case(l),
@@ -417,4 +419,107 @@ fn lay_case(l: &[Sx]) -> String {
         _ => false,
     };
     format!("{ra} ## layout={} tree={}", if ra == rb { "holds" } else { "FAILS" }, if same_tree { "holds" } else { "FAILS" })
+}
+
+// C12: a script is compiled, optimized against the standard library, and both trees must survive the JSON round trip
+fn roundtrip_ok(e: &Expression) -> (bool, bool) {
+    let same = |a: &Expression, b: &Expression| show_expr(a) == show_expr(b);
+    let v = serde_json::to_value(e).ok().and_then(|j| serde_json::from_value::<Expression>(j).ok()).map(|b| same(e, &b)).unwrap_or(false);
+    let t = serde_json::to_string(e).ok().and_then(|j| serde_json::from_str::<Expression>(&j).ok()).map(|b| same(e, &b)).unwrap_or(false);
+    (v, t)
+}
+pub fn expr_has_nonfinite(e: &Expression) -> bool {
+    fn val(v: &Value) -> bool {
+        match v {
+            Value::Number(n) => !n.is_finite(),
+            Value::Array(a) => a.iter().any(val),
+            _ => false,
+        }
+    }
+    match e {
+        Expression::Unary { right, .. } => expr_has_nonfinite(right),
+        Expression::Binary { left, right, .. } => expr_has_nonfinite(left) || expr_has_nonfinite(right),
+        Expression::Ternary { left, middle, right, .. } => expr_has_nonfinite(left) || expr_has_nonfinite(middle) || expr_has_nonfinite(right),
+        Expression::Array { expressions } => expressions.iter().any(expr_has_nonfinite),
+        Expression::Literal { value } => val(value),
+        Expression::Variable { .. } => false,
+        Expression::Call { params, .. } => params.iter().any(expr_has_nonfinite),
+    }
+}
+fn serscript_case(l: &[Sx]) -> String {
+    let text = cps_to_string(&l[2..]);
+    let mut env = StaticEnvironment::default();
+    slac::stdlib::extend_environment(&mut env);
+    match compile(&text) {
+        Err(_) => "R=nocompile ## roundtrip=n/a".to_string(),
+        Ok(e) => {
+            let mut o = e.clone();
+            let _ = optimize(&env, &mut o);
+            let (v1, t1) = roundtrip_ok(&e);
+            let (v2, t2) = roundtrip_ok(&o);
+            let nonfinite = expr_has_nonfinite(&e) || expr_has_nonfinite(&o);
+            // the reloaded tree behaves like the original
+            let back = serde_json::to_string(&o).ok().and_then(|j| serde_json::from_str::<Expression>(&j).ok());
+            let behaves = match &back {
+                Some(b) => show_res(&execute(&env, b)) == show_res(&execute(&env, &o)) && check_boolean_result(b).is_ok() == check_boolean_result(&o).is_ok(),
+                None => false,
+            };
+            let ok = v1 && t1 && v2 && t2 && behaves;
+            format!("R=compiled ## roundtrip={} nonfinite={}", if ok { "holds" } else { "FAILS" }, nonfinite)
+        }
+    }
+}
+// C19: evaluation is unaffected by the letter case of identifiers in the tree and of the names used at registration
+fn flip_case(s: &str, phase: usize) -> String {
+    s.chars().enumerate().map(|(i, c)| if (i + phase) % 2 == 0 { c.to_uppercase().next().filter(|u| u.to_lowercase().next() == c.to_lowercase().next() && c.to_uppercase().count() == 1).unwrap_or(c) } else { c.to_lowercase().next().filter(|_| c.to_lowercase().count() == 1).unwrap_or(c) }).collect()
+}
+fn respell_expr(e: &Expression, phase: usize) -> Expression {
+    let bx = |x: &Expression| Box::new(respell_expr(x, phase));
+    match e {
+        Expression::Unary { right, operator } => Expression::Unary { right: bx(right), operator: *operator },
+        Expression::Binary { left, right, operator } => Expression::Binary { left: bx(left), right: bx(right), operator: *operator },
+        Expression::Ternary { left, middle, right, operator } => Expression::Ternary { left: bx(left), middle: bx(middle), right: bx(right), operator: *operator },
+        Expression::Array { expressions } => Expression::Array { expressions: expressions.iter().map(|x| respell_expr(x, phase)).collect() },
+        Expression::Literal { value } => Expression::Literal { value: value.clone() },
+        Expression::Variable { name } => Expression::Variable { name: flip_case(name, phase) },
+        Expression::Call { name, params } => Expression::Call { name: flip_case(name, phase), params: params.iter().map(|x| respell_expr(x, phase)).collect() },
+    }
+}
+fn respell_case(l: &[Sx]) -> String {
+    let text = cps_to_string(&l[2..]);
+    let vars: Vec<(&str, Value)> = vec![("x", Value::Number(3.0)), ("y_1", Value::String("str".into())), ("Abc", Value::String("MiXed".into())), ("ünï", Value::Number(1.5)),
+        ("notx", Value::Boolean(true)), ("or_", Value::Boolean(false)), ("e5", Value::Array(vec![Value::Number(1.0)])), ("_", Value::Number(0.0))];
+    fn echo(p: &[Value]) -> NativeResult { Ok(Value::Array(p.to_vec())) }
+    let build = |phase: Option<usize>| {
+        let mut env = StaticEnvironment::default();
+        for f in slac::stdlib::builtins() {
+            let mut f2 = f.clone();
+            if let Some(p) = phase { f2.name = flip_case(&f.name, p); }
+            env.add_function(f2);
+        }
+        for n in ["f", "g_2", "ä"] {
+            env.add_function(Function::new(echo, Arity::Variadic, &match phase { Some(p) => flip_case(n, p), None => n.to_string() }));
+        }
+        for (n, v) in &vars {
+            env.add_variable(&match phase { Some(p) => flip_case(n, p), None => n.to_string() }, v.clone());
+        }
+        env
+    };
+    match compile(&text) {
+        Err(_) => "R=nocompile ## respell=n/a".to_string(),
+        Ok(e) => {
+            let base = show_res(&execute(&build(None), &e));
+            let cn = check_variables_and_functions(&build(None), &e).is_ok();
+            let mut ok = true;
+            for (ephase, rphase) in [(Some(0usize), None), (Some(1), None), (None, Some(0usize)), (None, Some(1)), (Some(0), Some(1))] {
+                let e2 = match ephase { Some(p) => respell_expr(&e, p), None => e.clone() };
+                let env2 = build(rphase);
+                let r2 = show_res(&execute(&env2, &e2));
+                // names inside error payloads are spelled as in the tree: compare modulo case
+                ok &= r2.to_lowercase() == base.to_lowercase() || (r2.starts_with("err:") && base.starts_with("err:") && r2.split(':').nth(1) == base.split(':').nth(1));
+                ok &= check_variables_and_functions(&env2, &e2).is_ok() == cn;
+            }
+            format!("R=compiled ## respell={}", if ok { "holds" } else { "FAILS" })
+        }
+    }
 }
